@@ -78,9 +78,25 @@ impl TraitCodegen<'_> {
             let trait_fn_sig =
                 make_trait_fn_sig(&trait_fn.entrait_sig, self.sub_attributes, self.opts);
 
-            quote! {
-                #(#attrs)*
-                #trait_fn_sig;
+            match &trait_fn.default_body {
+                None => quote! {
+                    #(#attrs)*
+                    #trait_fn_sig;
+                },
+                // `async fn` was rewritten to `fn -> impl Future`, so its body becomes an async block
+                Some(body)
+                    if trait_fn.entrait_sig.sig.asyncness.is_some()
+                        && trait_fn_sig.asyncness.is_none() =>
+                {
+                    quote! {
+                        #(#attrs)*
+                        #trait_fn_sig { async move #body }
+                    }
+                }
+                Some(body) => quote! {
+                    #(#attrs)*
+                    #trait_fn_sig #body
+                },
             }
         });
 
